@@ -1471,6 +1471,13 @@ end EquivC11
 -- NO-HYPOTHESES: PysparklingVerif.Extracted.C09.saveAsTextFile_eq_model
 -- NO-HYPOTHESES: PysparklingVerif.Extracted.C10.queueGet_eq
 -- NO-HYPOTHESES: PysparklingVerif.Extracted.C10.fileGet_eq
+-- NO-HYPOTHESES: PysparklingVerif.Extracted.C01.aggregate_eq
+-- NO-HYPOTHESES: PysparklingVerif.Extracted.C01.fold_eq
+-- NO-HYPOTHESES: PysparklingVerif.Extracted.C01.count_eq
+-- NO-HYPOTHESES: PysparklingVerif.Extracted.C01.sum_eq
+-- NO-HYPOTHESES: PysparklingVerif.Extracted.C01.collect_eq
+-- NO-HYPOTHESES: PysparklingVerif.Extracted.C01.first_take_eq
+-- NO-HYPOTHESES: PysparklingVerif.Extracted.C01.reduce_eq
 -- NO-HYPOTHESES: PysparklingVerif.Extracted.C12.andEval_eq
 -- NO-HYPOTHESES: PysparklingVerif.Extracted.C12.orEval_eq
 -- NO-HYPOTHESES: PysparklingVerif.Extracted.C12.invertEval_eq
@@ -1490,6 +1497,10 @@ end EquivC11
 -- NO-HYPOTHESES: PysparklingVerif.Extracted.C18.bounds_eq
 -- NO-HYPOTHESES: PysparklingVerif.Extracted.C18.castBoundedParsed_spec
 -- NO-HYPOTHESES: PysparklingVerif.Extracted.C18.generated_wraps
+-- NO-HYPOTHESES: PysparklingVerif.Extracted.C19.atomName_eq
+-- NO-HYPOTHESES: PysparklingVerif.Extracted.C19.toJ_eq
+-- NO-HYPOTHESES: PysparklingVerif.Extracted.C19.read_keys_are_written_keys
+-- NO-HYPOTHESES: PysparklingVerif.Extracted.C19.dispatch_names
 -- NO-HYPOTHESES: PysparklingVerif.Extracted.C20.hasInfix_slash
 -- NO-HYPOTHESES: PysparklingVerif.Extracted.C20.resolveFilenames_eq_model
 
